@@ -184,6 +184,16 @@ func genC17() *rapid.Generator[C17Case] {
 			c.Sc.Opts.PopSize = rapid.SampledFrom([]int{1000, 2048, 4096}).Draw(t, "large population")
 			c.Sc.Opts.BabiesStolen = 0
 			c.Sc.Epochs = rapid.IntRange(1, 2).Draw(t, "epochs (large)")
+		case 38, 39: // a saturated start genome and a very large number of tries for a new link: every add-link search runs long
+			c.Sc.Ctor = "spawn"
+			c.Sc.Start = GenomeSpec{Id: 1, Traits: []TraitSpec{{Id: 1, Params: make([]float64, 8)}},
+				Nodes: []NodeSpec{{Id: 1, Role: roleInput, Act: 17}, {Id: 2, Role: roleInput, Act: 17}, {Id: 3, Role: roleOutput, Act: 4}},
+				Genes: []GeneSpec{{In: 1, Out: 3, W: 0.5, Innov: 1, Mut: 0.5, En: true, Trait: 1}, {In: 2, Out: 3, W: -0.5, Innov: 2, Mut: -0.5, En: true, Trait: 1}}}
+			o := &c.Sc.Opts
+			o.PopSize, o.BabiesStolen, o.NewLinkTries = 6, 0, rapid.SampledFrom([]int{200000, 400000}).Draw(t, "new link tries")
+			o.MutateAddNodeProb, o.MutateAddLinkProb, o.MutateOnlyProb, o.MutateConnectSensors, o.RecurOnlyProb = 0, 0.9, 0.9, 0, 0
+			c.Sc.Epochs = 2
+			c.Sc.Switch = nil
 		case 20, 21, 22, 23, 24, 25: // a modular start genome (two or more modules reach the children of crossovers)
 			c.Sc.Ctor = "spawn"
 			c.Sc.Start = modular.Draw(t, "modular start")
@@ -255,6 +265,9 @@ func CheckC17(c C17Case, rec *Rec) error {
 	}
 	if sc.Opts.PopSize >= 1000 {
 		rec.Class("large population")
+	}
+	if sc.Opts.NewLinkTries >= 100000 {
+		rec.Class("add-link searches that run long")
 	}
 	if err1 != nil || err2 != nil {
 		// a scenario that fails is judged by the properties about construction and turnover; here only "the same
